@@ -811,6 +811,10 @@ Proof.
   { intros k' y H. apply Hget in H as [[-> ->]|[_ H]]; [exact Hamt|eapply (ig_u64 w G); eauto]. }
   assert (HAK : forall k' y, mget k' (mset k x (w_slips w)) = Some y -> ws_amt y = k_amt k').
   { intros k' y H. apply Hget in H as [[-> ->]|[_ H]]; [exact Hkamt|apply AK; auto]. }
+  assert (Hsubx : forall k', In k' (w_unspent w) -> mhas k' (mset k x (w_slips w)) = true).
+  { intros k' Hin. apply mhas_true. destruct (key_eq_dec k' k) as [->|Hne].
+    - rewrite mget_mset_same; eauto.
+    - rewrite mget_mset_other by auto. apply mhas_true, (ig_sub w G); auto. }
   destruct (mhas k (w_slips w)) eqn:Hhas.
   - apply mhas_true in Hhas as [x0 Hx0].
     assert (Hamt_same : forall k', amt_of (mset k x (w_slips w)) k' = amt_of (w_slips w) k').
@@ -821,15 +825,27 @@ Proof.
     { apply sum_keys_ext. intros; apply Hamt_same. }
     cbn [safe]. split; [split; [constructor; cbn [w_unspent w_slips w_balance]|]|exact HAK].
     + apply G.
-    + intros k' Hin. apply mhas_true. destruct (key_eq_dec k' k) as [->|Hne].
-      * rewrite mget_mset_same; eauto.
-      * rewrite mget_mset_other by auto. apply mhas_true, (ig_sub w G); auto.
+    + exact Hsubx.
     + exact Hkey.
     + exact Hu.
     + unfold sum_unspent; cbn [w_unspent w_slips]. rewrite Hsum. apply G.
     + unfold sum_unspent; cbn [w_unspent w_slips]. rewrite Hsum. exact B.
   - assert (Hnk : ~ In k (w_unspent w)).
     { intros Hin. apply (ig_sub w G) in Hin. congruence. }
+    assert (Hsame : sum_keys (mset k x (w_slips w)) (w_unspent w) = sum_unspent w)
+      by (apply sum_keys_mset_fresh; auto).
+    assert (Hkeep : forall st,
+              InvD dbg (mkW (w_pk w) (mset k x (w_slips w)) (w_unspent w) st (w_balance w) (w_pending w)) /\
+              AmtKey (mkW (w_pk w) (mset k x (w_slips w)) (w_unspent w) st (w_balance w) (w_pending w))).
+    { intros st. split; [split; [constructor; cbn [w_unspent w_slips w_balance]|]|exact HAK].
+      - apply G.
+      - exact Hsubx.
+      - exact Hkey.
+      - exact Hu.
+      - unfold sum_unspent; cbn [w_unspent w_slips]. rewrite Hsame. apply G.
+      - unfold sum_unspent; cbn [w_unspent w_slips]. rewrite Hsame. exact B. }
+    destruct (s_ty s =? TY_BLOCKSTAKE); [cbn [safe]; apply Hkeep|].
+    destruct (s_ty s =? TY_BOUND); [cbn [safe]; apply Hkeep|].
     assert (Hins : kinsert k (w_unspent w) = k :: w_unspent w).
     { unfold kinsert. apply kmem_false in Hnk. rewrite Hnk. reflexivity. }
     assert (Hsum : sum_keys (mset k x (w_slips w)) (k :: w_unspent w) = s_amt s + sum_unspent w).
@@ -839,9 +855,7 @@ Proof.
     + rewrite Hins. split; [split|exact HAK].
       * constructor; cbn [w_unspent w_slips w_balance].
         -- constructor; [exact Hnk|apply G].
-        -- intros k' [<-|Hin]; [apply mhas_true; rewrite mget_mset_same; eauto|].
-           apply mhas_true. rewrite mget_mset_other by (intros ->; contradiction).
-           apply mhas_true, (ig_sub w G); auto.
+        -- intros k' [<-|Hin]; [apply mhas_true; rewrite mget_mset_same; eauto|auto].
         -- exact Hkey.
         -- exact Hu.
         -- unfold sum_unspent; cbn [w_unspent w_slips]. rewrite Hsum.
@@ -995,19 +1009,19 @@ Definition stale (pk : N) (sl : list (key * wslip)) (k : key) : bool :=
 Definition selection (w : wallet) (order : list key) (pays : list N) (fee latest gp : N) : list key :=
   select (thr_of latest gp) (requested w pays fee) order (w_slips w) 0.
 
-(* The four classes of calls on which the pinned code builds a bad transaction *)
-Definition known_wrap (w : wallet) (pays : list N) (fee : N) : bool :=
-  W64 <=? requested w pays fee.
+(* The two classes of calls on which the code still builds a bad transaction
+   (the u64 wrap of payments + fee and the stale coordinates after an unwind were
+   repaired in /repo: 2da67eb, 953d536) *)
 Definition known_edge (w : wallet) (order : list key) (pays : list N) (fee latest gp : N) : bool :=
   eligible_sum (thr_of latest gp) (w_slips w) order <? requested w pays fee.
 Definition known_cap (w : wallet) (order : list key) (pays : list N) (fee latest gp : N) : bool :=
   255 <? Nlen (selection w order pays fee latest gp).
-Definition known_stale (w : wallet) (order : list key) (pays : list N) (fee latest gp : N) : bool :=
-  existsb (stale (w_pk w) (w_slips w)) (selection w order pays fee latest gp).
 
 Definition Known_C19 (w : wallet) (order : list key) (pays : list N) (fee latest gp : N) : bool :=
-  known_wrap w pays fee || known_edge w order pays fee latest gp ||
-  known_cap w order pays fee latest gp || known_stale w order pays fee latest gp.
+  known_edge w order pays fee latest gp || known_cap w order pays fee latest gp.
+
+(* no stored slip has coordinates that disagree with its key *)
+Definition NoStale (w : wallet) : Prop := forall k, stale (w_pk w) (w_slips w) k = false.
 
 Definition inputs_of (pk : N) (sl : list (key * wslip)) (ks : list key) : list slip :=
   flat_map (fun k => match mget k sl with Some x => [input_of pk x] | None => [] end) ks.
@@ -1032,21 +1046,19 @@ Proof. intros. unfold sum_amt. rewrite <- firstn_map. apply sumN_firstn. Qed.
 Lemma sum_amt_app : forall a b, sum_amt (a ++ b) = sum_amt a + sum_amt b.
 Proof. intros. unfold sum_amt. rewrite map_app. apply sumN_app. Qed.
 
-Lemma sum64_exact : forall dbg site l acc, acc + sumN l < W64 -> sum64 dbg site acc l = Ok (acc + sumN l).
+Lemma sum_checked_exact : forall l acc, acc + sumN l < W64 -> sum_checked acc l = Some (acc + sumN l).
 Proof.
-  induction l as [|x t IH]; intros acc H; cbn [sum64 sumN fold_right] in *; [rewrite N.add_0_r; reflexivity|].
-  fold (sumN t) in *. rewrite add64_ok by lia. cbn [bind]. rewrite IH by lia. f_equal. lia.
+  induction l as [|x t IH]; intros acc H; cbn [sum_checked sumN fold_right] in *; [rewrite N.add_0_r; reflexivity|].
+  fold (sumN t) in *. assert (E : acc + x <? W64 = true) by (apply N.ltb_lt; lia). rewrite E.
+  rewrite IH by lia. f_equal. lia.
 Qed.
 
-Lemma sum64_cases : forall dbg site l acc v, acc < W64 -> sum64 dbg site acc l = Ok v ->
-  (acc + sumN l < W64 /\ v = acc + sumN l) \/ (dbg = false /\ W64 <= acc + sumN l).
+Lemma sum_checked_some : forall l acc v, sum_checked acc l = Some v -> v = acc + sumN l /\ (acc < W64 -> v < W64).
 Proof.
-  induction l as [|x t IH]; intros acc v Hacc H; cbn [sum64 sumN fold_right] in *.
-  - inversion H; subst. left. lia.
-  - fold (sumN t) in *. destruct (add64 dbg site acc x) as [a| |s] eqn:Ea; cbn [bind] in H; try discriminate.
-    apply add64_cases in Ea as [[H1 ->]|[-> [H1 ->]]].
-    + apply IH in H; [|exact H1]. destruct H as [[H2 ->]|[-> H2]]; [left; lia|right; lia].
-    + right. split; [reflexivity|lia].
+  induction l as [|x t IH]; intros acc v H; cbn [sum_checked sumN fold_right] in *.
+  - inversion H; subst. split; [lia|auto].
+  - fold (sumN t) in *. destruct (acc + x <? W64) eqn:E; [|discriminate]. apply N.ltb_lt in E.
+    apply IH in H as [H1 H2]. split; [lia|intros _; auto].
 Qed.
 
 Lemma pays_sum : forall (keys pays : list N), length pays = length keys ->
@@ -1196,7 +1208,7 @@ Lemma firstn_all_le : forall A (l : list A) n, (length l <= n)%nat -> firstn n l
 Proof. intros. apply firstn_all2; auto. Qed.
 
 Theorem built_tx_ok : forall dbg w order keys pays fee latest gp w' t,
-  Exact w -> enumerates order (w_unspent w) = true ->
+  Exact w -> NoStale w -> enumerates order (w_unspent w) = true ->
   Known_C19 w order pays fee latest gp = false ->
   create dbg w order keys pays fee latest gp = Ok (w', Built t) ->
   NoDup (map slip_key (bt_from t)) /\
@@ -1204,21 +1216,22 @@ Theorem built_tx_ok : forall dbg w order keys pays fee latest gp w' t,
   (forall i, In i (bt_from t) -> 0 < s_amt i -> In (slip_key i) (w_unspent w)) /\
   ((length pays <= 254)%nat -> sum_amt (bt_from t) = sum_amt (bt_to t) + fee_eff w fee).
 Proof.
-  intros dbg w order keys pays fee latest gp w' t [G B] Hen HK Hc.
+  intros dbg w order keys pays fee latest gp w' t [G B] HNS Hen HK Hc.
   apply enumerates_spec in Hen as (ND & HI & _).
-  unfold Known_C19 in HK. apply orb_false_iff in HK as [HK Ks]. apply orb_false_iff in HK as [HK Kc].
-  apply orb_false_iff in HK as [Kw Ke].
-  unfold known_wrap in Kw. apply N.leb_gt in Kw.
+  unfold Known_C19 in HK. apply orb_false_iff in HK as [Ke Kc].
   unfold known_edge in Ke. apply N.ltb_ge in Ke.
   unfold known_cap in Kc. apply N.ltb_ge in Kc.
-  unfold known_stale in Ks. pose proof (existsb_false_all _ _ _ Ks) as Hns. clear Ks.
+  assert (Hns : forall x, In x (selection w order pays fee latest gp) -> stale (w_pk w) (w_slips w) x = false)
+    by (intros; apply HNS).
   unfold selection in *. unfold requested in *.
   unfold create in Hc. cbv zeta in Hc. fold (fee_eff w fee) in Hc.
-  rewrite sum64_exact in Hc by (rewrite N.add_0_l; lia). cbn [bind] in Hc. rewrite N.add_0_l in Hc.
+  destruct (sum_checked 0 pays) as [total|] eqn:Esum; [|discriminate].
+  apply sum_checked_some in Esum as [-> _]. rewrite N.add_0_l in Hc.
   destruct (negb (Nlen pays =? Nlen keys)) eqn:El; [discriminate|].
   apply negb_false_iff, N.eqb_eq in El. unfold Nlen in El.
   assert (Hlen : length pays = length keys) by lia.
-  rewrite add64_ok in Hc by exact Kw. cbn [bind] in Hc.
+  destruct (negb (sumN pays + fee_eff w fee <? W64)) eqn:Ew; [discriminate|].
+  apply negb_false_iff, N.ltb_lt in Ew. pose proof Ew as Kw.
   set (req := sumN pays + fee_eff w fee) in *.
   destruct (w_balance w <? req) eqn:Eb; [discriminate|]. apply N.ltb_ge in Eb.
   pose proof (pays_sum keys pays Hlen) as Hps.
@@ -1297,6 +1310,378 @@ Proof.
   rewrite Hr in H. destruct H as [G _]. split; auto.
 Qed.
 
+
+(* ------------------------------------------------------------------ *)
+(** * More map facts *)
+
+Section MapKeys.
+  Context {V : Type}.
+  Implicit Types m : list (key * V).
+
+  Lemma mremove_keys_In : forall k k' m, In k' (map fst (mremove k m)) <-> In k' (map fst m) /\ k' <> k.
+  Proof.
+    induction m as [|[k0 v] t IH]; cbn [mremove map In fst]; [tauto|].
+    destruct (key_eqb k k0) eqn:E.
+    - apply key_eqb_eq in E; subst. rewrite IH. split; [intros [H1 H2]; auto|intros [[H1|H1] H2]; [congruence|auto]].
+    - apply key_eqb_neq in E. cbn [map In fst]. rewrite IH. split.
+      + intros [H|[H1 H2]]; [subst; split; auto|auto].
+      + intros [[H|H] H2]; auto.
+  Qed.
+
+  Lemma mremove_keys_NoDup : forall k m, NoDup (map fst m) -> NoDup (map fst (mremove k m)).
+  Proof.
+    induction m as [|[k0 v] t IH]; cbn [mremove map fst]; intros H; [constructor|].
+    inversion H; subst. destruct (key_eqb k k0); [auto|].
+    cbn [map fst]. constructor; [rewrite mremove_keys_In; tauto|auto].
+  Qed.
+
+  Lemma mset_keys_NoDup : forall k v m, NoDup (map fst m) -> NoDup (map fst (mset k v m)).
+  Proof.
+    intros. unfold mset. cbn [map fst]. constructor; [rewrite mremove_keys_In; tauto|].
+    apply mremove_keys_NoDup; auto.
+  Qed.
+
+  Lemma mget_keys : forall k m, (exists v, mget k m = Some v) <-> In k (map fst m).
+  Proof.
+    induction m as [|[k0 v0] t IH]; cbn [mget map In fst].
+    - split; [intros [v H]; discriminate|tauto].
+    - destruct (key_eqb k k0) eqn:E.
+      + apply key_eqb_eq in E; subst. split; eauto.
+      + apply key_eqb_neq in E. rewrite IH. split; [auto|intros [H|H]; [congruence|auto]].
+  Qed.
+
+  Lemma In_mget_nodup : forall k v m, NoDup (map fst m) -> (In (k, v) m <-> mget k m = Some v).
+  Proof.
+    induction m as [|[k0 v0] t IH]; cbn [mget map In fst]; intros ND.
+    - split; [tauto|discriminate].
+    - inversion ND; subst. destruct (key_eqb k k0) eqn:E.
+      + apply key_eqb_eq in E; subst. split.
+        * intros [H|H]; [inversion H; reflexivity|]. exfalso. apply H1.
+          apply (in_map fst) in H. exact H.
+        * intros H; inversion H; auto.
+      + apply key_eqb_neq in E. rewrite <- IH by auto. split; [intros [H|H]; [inversion H; congruence|auto]|auto].
+  Qed.
+
+  Lemma mhas_false : forall k m, mhas k m = false <-> mget k m = None.
+  Proof. intros; unfold mhas; destruct (mget k m); split; congruence. Qed.
+End MapKeys.
+
+(* ------------------------------------------------------------------ *)
+(** * What building a transaction does to the rest of the wallet *)
+
+Definition spent_rel (sl sl' : list (key * wslip)) : Prop :=
+  (NoDup (map fst sl) -> NoDup (map fst sl')) /\
+  forall k, mget k sl' = mget k sl \/ exists x, mget k sl = Some x /\ mget k sl' = Some (set_spent x).
+
+Lemma spent_rel_refl : forall sl, spent_rel sl sl.
+Proof. intros; split; auto. Qed.
+
+Lemma spent_rel_trans : forall a b c, spent_rel a b -> spent_rel b c -> spent_rel a c.
+Proof.
+  intros a b c [N1 R1] [N2 R2]. split; [auto|]. intros k.
+  destruct (R1 k) as [E1|(x & Hx & E1)], (R2 k) as [E2|(y & Hy & E2)].
+  - left; congruence.
+  - right. exists y. split; congruence.
+  - right. exists x. split; congruence.
+  - right. exists x. split; [auto|]. rewrite E1 in Hy. inversion Hy; subst. rewrite E2. reflexivity.
+Qed.
+
+Lemma gen_loop_frame : forall dbg pk thr req order sl bal nin g,
+  gen_loop dbg pk thr req order sl bal nin = Ok g -> spent_rel sl (g_slips g).
+Proof.
+  induction order as [|k t IH]; intros sl bal nin g Hg; cbn [gen_loop] in Hg.
+  - inversion Hg; subst. apply spent_rel_refl.
+  - destruct (mget k sl) as [x|] eqn:Hx; [|discriminate].
+    destruct (ws_bid x <=? thr); [eapply IH; eauto|].
+    destruct (req <=? nin); [inversion Hg; subst; apply spent_rel_refl|].
+    destruct (add64 dbg SITE_NOLAN_ADD nin (ws_amt x)); cbn [bind] in Hg; try discriminate.
+    destruct (sub64 dbg SITE_BAL_SUB bal (ws_amt x)); cbn [bind] in Hg; try discriminate.
+    destruct (gen_loop dbg pk thr req t (mset k (set_spent x) sl) v0 v) as [g'| |] eqn:E; cbn [bind] in Hg; try discriminate.
+    inversion Hg; subst. cbn [g_slips].
+    eapply spent_rel_trans; [|eapply IH; eauto].
+    split; [apply mset_keys_NoDup|]. intros k'. destruct (key_eq_dec k' k) as [->|Hne].
+    + right. exists x. rewrite mget_mset_same. auto.
+    + left. apply mget_mset_other; auto.
+Qed.
+
+Lemma create_frame : forall dbg w order keys pays fee latest gp w' out,
+  create dbg w order keys pays fee latest gp = Ok (w', out) ->
+  w_pk w' = w_pk w /\ spent_rel (w_slips w) (w_slips w') /\ incl (w_unspent w') (w_unspent w).
+Proof.
+  intros dbg w order keys pays fee latest gp w' out. unfold create.
+  assert (Hsame : w_pk w = w_pk w /\ spent_rel (w_slips w) (w_slips w) /\ incl (w_unspent w) (w_unspent w)).
+  { splits; auto using spent_rel_refl. intros x Hx; exact Hx. }
+  destruct (sum_checked 0 pays) as [total|]; [|intros H; inversion H; subst; exact Hsame].
+  destruct (negb (Nlen pays =? Nlen keys)); [intros H; inversion H; subst; exact Hsame|].
+  cbv zeta.
+  destruct (negb (total + (if w_balance w <? fee then 0 else fee) <? W64)); [intros H; inversion H; subst; exact Hsame|].
+  set (req := total + (if w_balance w <? fee then 0 else fee)).
+  destruct (w_balance w <? req); [intros H; inversion H; subst; exact Hsame|].
+  destruct (req =? 0).
+  - cbn [bind]. intros H; inversion H; subst; exact Hsame.
+  - unfold generate_slips.
+    destruct (skip_threshold dbg latest gp); cbn [bind]; try discriminate.
+    destruct (gen_loop dbg (w_pk w) v req order (w_slips w) (w_balance w) 0) as [g| |] eqn:Eg; cbn [bind]; try discriminate.
+    intros H; inversion H; subst. cbn [w_pk w_slips w_unspent]. splits; auto.
+    + eapply gen_loop_frame; eauto.
+    + intros x Hx. apply remove_all_In in Hx. tauto.
+Qed.
+
+
+(* ------------------------------------------------------------------ *)
+(** * No stored slip is stale (regression of 953d536: no hypothesis on unwound blocks) *)
+
+Definition okp {A} (P : A -> Prop) (r : res A) : Prop := forall a, r = Ok a -> P a.
+
+Lemma okp_bind {A B} (P : A -> Prop) (Q : B -> Prop) (r : res A) (f : A -> res B) :
+  okp P r -> (forall a, P a -> okp Q (f a)) -> okp Q (bind r f).
+Proof. unfold okp. destruct r; cbn [bind]; intros H1 H2 b Hb; try discriminate. eapply H2; eauto. Qed.
+
+Lemma okp_ok {A} (P : A -> Prop) (a : A) : P a -> okp P (Ok a).
+Proof. intros H b Hb. inversion Hb; subst; auto. Qed.
+
+Lemma scan_okp_n : forall A (P : A -> Prop) (f : A -> slip -> res A) (n : nat) l acc,
+  (length l <= n)%nat ->
+  (forall a s, P a -> In s l -> okp P (f a s)) -> P acc -> okp P (scan f acc l).
+Proof.
+  induction n as [|n IH]; intros l acc Hlen Hf Hacc.
+  - destruct l; [apply okp_ok; exact Hacc|cbn in Hlen; lia].
+  - destruct l as [|a t]; [apply okp_ok; exact Hacc|]. cbn [length] in Hlen.
+    assert (Hstep : okp P (do acc' <- f acc a; scan f acc' t)).
+    { eapply okp_bind; [apply Hf; cbn; auto|].
+      intros acc' Hacc'. apply IH; [lia| |exact Hacc'].
+      intros a0 s0 Ha0 Hin. apply Hf; cbn; auto. }
+    cbn [scan]. destruct t as [|b [|c t']]; try exact Hstep.
+    destruct (is_bound a && is_bound c && negb (is_bound b)); [|exact Hstep].
+    apply IH; [cbn [length] in *; lia| |exact Hacc].
+    intros a0 s0 Ha0 Hin. apply Hf; cbn; auto.
+Qed.
+
+Lemma scan_okp : forall A (P : A -> Prop) (f : A -> slip -> res A) l acc,
+  (forall a s, P a -> In s l -> okp P (f a s)) -> P acc -> okp P (scan f acc l).
+Proof. intros; eapply scan_okp_n; eauto. Qed.
+
+Lemma fold_res_okp : forall A B (P : A -> Prop) (f : A -> B -> res A) l acc,
+  (forall a s, P a -> In s l -> okp P (f a s)) -> P acc -> okp P (fold_res f acc l).
+Proof.
+  induction l as [|x t IH]; intros acc Hf Hacc; cbn [fold_res]; [apply okp_ok; exact Hacc|].
+  eapply okp_bind; [apply Hf; cbn; auto|].
+  intros a Ha. apply IH; auto. intros; apply Hf; cbn; auto.
+Qed.
+
+Definition NS (pk : N) (w : wallet) : Prop :=
+  w_pk w = pk /\ forall k x, mget k (w_slips w) = Some x -> fields_key pk x = k.
+
+Lemma NS_NoStale : forall pk w, NS pk w -> NoStale w.
+Proof.
+  intros pk w [Hpk H] k. unfold stale. destruct (mget k (w_slips w)) as [x|] eqn:Hx; [|reflexivity].
+  rewrite Hpk, (H k x Hx), key_eqb_refl. reflexivity.
+Qed.
+
+Lemma NS_frame : forall pk w sl un st bal pe,
+  NS pk w -> (forall k x, mget k sl = Some x -> fields_key pk x = k) -> NS pk (mkW (w_pk w) sl un st bal pe).
+Proof. intros pk w sl un st bal pe [Hpk _] H. split; auto. Qed.
+
+Lemma add_slip_NS : forall dbg pk w bid txi s lc,
+  NS pk w -> s_pk s = pk -> s_bid s = bid -> s_txo s = txi ->
+  okp (NS pk) (add_slip dbg w bid txi s lc).
+Proof.
+  intros dbg pk w bid txi s lc HN Hp Hb Ht. unfold add_slip.
+  destruct (mhas (slip_key s) (w_slips w)); [apply okp_ok; exact HN|].
+  destruct (bid =? 0); [intros a Ha; discriminate|].
+  set (x := mkWS (slip_key s) (s_amt s) bid txi lc (s_idx s) false (s_ty s)).
+  assert (Hrec : forall k y, mget k (mset (slip_key s) x (w_slips w)) = Some y -> fields_key pk y = k).
+  { intros k y. destruct (key_eq_dec k (slip_key s)) as [->|Hne].
+    - rewrite mget_mset_same. intros Hy; inversion Hy; subst y.
+      unfold fields_key, x, slip_key. cbn [ws_bid ws_txo ws_idx ws_amt ws_ty]. f_equal; congruence.
+    - rewrite mget_mset_other by auto. apply HN. }
+  destruct (s_ty s =? TY_BLOCKSTAKE); [apply okp_ok, NS_frame; auto|].
+  destruct (s_ty s =? TY_BOUND); [apply okp_ok, NS_frame; auto|].
+  destruct (add64 dbg SITE_BAL_ADD (w_balance w) (s_amt s)); cbn [bind]; try (intros a Ha; discriminate).
+  apply okp_ok, NS_frame; auto.
+Qed.
+
+Lemma delete_key_NS : forall dbg pk w k, NS pk w -> okp (NS pk) (delete_key dbg w k).
+Proof.
+  intros dbg pk w k HN. unfold delete_key.
+  destruct (mget k (w_slips w)) as [x|]; [|apply okp_ok; exact HN].
+  assert (Hrec : forall k' y, mget k' (mremove k (w_slips w)) = Some y -> fields_key pk y = k').
+  { intros k' y. destruct (key_eq_dec k' k) as [->|Hne].
+    - rewrite mget_mremove_same. discriminate.
+    - rewrite mget_mremove_other by auto. apply HN. }
+  destruct (kmem k (w_unspent w)).
+  - destruct (sub64 dbg SITE_BAL_SUB (w_balance w) (ws_amt x)); cbn [bind]; try (intros a Ha; discriminate).
+    apply okp_ok, NS_frame; auto.
+  - apply okp_ok, NS_frame; auto.
+Qed.
+
+Lemma delete_keys_NS : forall dbg pk ks w, NS pk w -> okp (NS pk) (delete_keys dbg w ks).
+Proof.
+  induction ks as [|k t IH]; intros w HN; cbn [delete_keys]; [apply okp_ok; exact HN|].
+  eapply okp_bind; [apply delete_key_NS; exact HN|]. intros; apply IH; auto.
+Qed.
+
+Lemma delete_pending_NS : forall pk w t, NS pk w -> okp (NS pk) (delete_pending w t).
+Proof.
+  intros pk w t HN. unfold delete_pending. destruct (t_hash t); [|intros a Ha; discriminate].
+  apply okp_ok, NS_frame; auto. apply HN.
+Qed.
+
+(* outputs of a wound block carry the block id and the transaction index *)
+Definition outs_at (bid txi : N) (t : tx) : Prop :=
+  forall o, In o (t_to t) -> s_bid o = bid /\ s_txo o = txi.
+
+Fixpoint txs_at (bid txi : N) (l : list tx) : Prop :=
+  match l with
+  | [] => True
+  | t :: r => outs_at bid txi t /\ txs_at bid (next_index txi t) r
+  end.
+
+Lemma wind_tx_NS : forall dbg pk gp bid txi w t,
+  NS pk w -> outs_at bid txi t -> okp (NS pk) (wind_tx dbg gp bid w txi t).
+Proof.
+  intros dbg pk gp bid txi w t HN Hat. unfold wind_tx.
+  eapply okp_bind.
+  { apply scan_okp; [|exact HN]. intros a s Ha Hin.
+    destruct (0 <? s_amt s); cbn [andb]; [|apply okp_ok; exact Ha].
+    destruct (s_pk s =? w_pk a) eqn:Ep; [|apply okp_ok; exact Ha].
+    apply N.eqb_eq in Ep. destruct (Hat s Hin). apply add_slip_NS; auto.
+    destruct Ha as [Hpk _]. congruence. }
+  intros w1 H1. eapply okp_bind.
+  { apply scan_okp; [|exact H1]. intros a s Ha Hin.
+    destruct (s_pk s =? w_pk a); [|apply okp_ok; exact Ha].
+    eapply okp_bind; [|intros; apply delete_pending_NS; eauto].
+    destruct (0 <? s_amt s); [apply delete_key_NS; auto|apply okp_ok; exact Ha]. }
+  intros w2 H2. destruct (gp <? bid); [apply delete_keys_NS; auto|apply okp_ok; exact H2].
+Qed.
+
+(* no hypothesis on the block: the spent outputs return under their own coordinates *)
+Lemma unwind_tx_NS : forall dbg pk bid txi w t,
+  NS pk w -> okp (NS pk) (unwind_tx dbg bid w txi t).
+Proof.
+  intros dbg pk bid txi w t HN. unfold unwind_tx.
+  eapply okp_bind.
+  { apply scan_okp; [|exact HN]. intros a s Ha Hin.
+    destruct ((0 <? s_amt s) && (s_pk s =? w_pk a)); [apply delete_key_NS; auto|apply okp_ok; exact Ha]. }
+  intros w1 H1. apply scan_okp; [|exact H1]. intros a s Ha Hin.
+  destruct (0 <? s_amt s); cbn [andb]; [|apply okp_ok; exact Ha].
+  destruct (s_pk s =? w_pk a) eqn:Ep; cbn [andb]; [|apply okp_ok; exact Ha].
+  destruct (0 <? s_bid s); [|apply okp_ok; exact Ha].
+  apply N.eqb_eq in Ep. apply add_slip_NS; auto. destruct Ha as [Hpk _]. congruence.
+Qed.
+
+Lemma wind_loop_NS : forall dbg pk gp bid l w txi,
+  NS pk w -> txs_at bid txi l -> okp (NS pk) (txs_loop (wind_tx dbg gp bid) w txi l).
+Proof.
+  induction l as [|t r IH]; intros w txi HN Hat; cbn [txs_loop]; [apply okp_ok; exact HN|].
+  destruct Hat as [H1 H2]. eapply okp_bind; [apply wind_tx_NS; eauto|]. intros; apply IH; auto.
+Qed.
+
+Lemma unwind_loop_NS : forall dbg pk bid l w txi,
+  NS pk w -> okp (NS pk) (txs_loop (unwind_tx dbg bid) w txi l).
+Proof.
+  induction l as [|t r IH]; intros w txi HN; cbn [txs_loop]; [apply okp_ok; exact HN|].
+  eapply okp_bind; [apply unwind_tx_NS; eauto|]. intros; apply IH; auto.
+Qed.
+
+Lemma delete_block_NS : forall dbg pk w b, NS pk w -> okp (NS pk) (delete_block dbg w b).
+Proof.
+  intros dbg pk w b HN. unfold delete_block.
+  apply fold_res_okp; [|exact HN]. intros a t Ha _.
+  eapply okp_bind.
+  { apply fold_res_okp; [|exact Ha]. intros; apply delete_key_NS; auto. }
+  intros w1 H1. apply fold_res_okp; [|exact H1].
+  intros a0 s Ha0 _. destruct (0 <? s_amt s); [apply delete_key_NS; auto|apply okp_ok; exact Ha0].
+Qed.
+
+Lemma create_NS : forall dbg pk w order keys pays fee latest gp,
+  NS pk w -> okp (fun r => NS pk (fst r)) (create dbg w order keys pays fee latest gp).
+Proof.
+  intros dbg pk w order keys pays fee latest gp [Hpk HN] [w' out] Hc. cbn [fst].
+  apply create_frame in Hc as (Hpk' & [_ Hrel] & _). split; [congruence|].
+  intros k y Hy. destruct (Hrel k) as [E|(x & Hx & E)].
+  - rewrite E in Hy. auto.
+  - rewrite E in Hy. inversion Hy; subst. apply (HN k x Hx).
+Qed.
+
+Lemma create_staking_NS : forall dbg pk w so uo amount unlocked lastvalid,
+  NS pk w -> okp (fun r => NS pk (fst r)) (create_staking dbg w so uo amount unlocked lastvalid).
+Proof.
+  intros dbg pk w so uo amount unlocked lastvalid HN [w' out]. unfold create_staking.
+  destruct (stake_loop1 dbg (w_slips w) amount unlocked lastvalid so 0) as [[collected sel1]| |]; cbn [bind]; try discriminate.
+  destruct (collected <? amount).
+  - destruct (stake_loop2 dbg (w_slips w) (amount - collected) lastvalid (sort_by amount_desc uo) 0) as [[c2 sel2]| |];
+      cbn [bind]; try discriminate.
+    destruct (c2 <? amount - collected); [intros H; inversion H; subst; exact HN|].
+    destruct (add64 dbg SITE_NOLAN_ADD collected c2); cbn [bind]; try discriminate.
+    destruct (sub64 dbg SITE_BAL_SUB (w_balance w) c2); cbn [bind]; try discriminate.
+    intros H; inversion H; subst. cbn [fst]. apply NS_frame; auto. apply HN.
+  - intros H; inversion H; subst. cbn [fst]. apply NS_frame; auto. apply HN.
+Qed.
+
+Lemma snap_insert_NS : forall dbg pk w s,
+  NS pk w -> s_key s = slip_key s -> s_pk s = pk -> okp (NS pk) (snap_insert dbg w s).
+Proof.
+  intros dbg pk w s HN Hk Hp. unfold snap_insert.
+  destruct (key_eqb (s_key s) zero_key); [intros a Ha; discriminate|].
+  set (x := mkWS (s_key s) (s_amt s) (s_bid s) (s_txo s) true (s_idx s) false (s_ty s)).
+  assert (Hrec : forall k y, mget k (mset (s_key s) x (w_slips w)) = Some y -> fields_key pk y = k).
+  { intros k y. destruct (key_eq_dec k (s_key s)) as [->|Hne].
+    - rewrite mget_mset_same. intros Hy; inversion Hy; subst y.
+      rewrite Hk. unfold fields_key, x, slip_key. cbn [ws_bid ws_txo ws_idx ws_amt ws_ty]. f_equal; congruence.
+    - rewrite mget_mset_other by auto. apply HN. }
+  destruct (mhas (s_key s) (w_slips w)); [apply okp_ok, NS_frame; auto|].
+  destruct (s_ty s =? TY_BLOCKSTAKE); [apply okp_ok, NS_frame; auto|].
+  destruct (s_ty s =? TY_BOUND); [apply okp_ok, NS_frame; auto|].
+  destruct (add64 dbg SITE_BAL_ADD (w_balance w) (s_amt s)); cbn [bind]; try (intros a Ha; discriminate).
+  apply okp_ok, NS_frame; auto.
+Qed.
+
+(* what a caller of the public mutators has to respect; nothing for OUnwind *)
+Definition op_ns (pk : N) (o : op) : Prop :=
+  match o with
+  | OAddSlip bid txi s _ => s_pk s = pk /\ s_bid s = bid /\ s_txo s = txi
+  | OWind b _ => txs_at (b_id b) 0 (b_txs b)
+  | OSnapshot l => forall s, In s l -> s_key s = slip_key s /\ s_pk s = pk
+  | _ => True
+  end.
+
+Lemma step_NS : forall dbg pk w o, NS pk w -> op_ns pk o -> okp (fun r => NS pk (fst r)) (step dbg w o).
+Proof.
+  intros dbg pk w o HN Ho. destruct o; cbn [step op_ns] in *.
+  - destruct Ho as (A & B & C). eapply okp_bind; [apply add_slip_NS; eauto|]. intros a Ha; apply okp_ok; exact Ha.
+  - eapply okp_bind; [apply delete_key_NS; eauto|]. intros a Ha; apply okp_ok; exact Ha.
+  - eapply okp_bind; [apply wind_loop_NS; eauto|]. intros a Ha; apply okp_ok; exact Ha.
+  - eapply okp_bind; [apply unwind_loop_NS; eauto|]. intros a Ha; apply okp_ok; exact Ha.
+  - eapply okp_bind; [apply delete_keys_NS; eauto|]. intros a Ha; apply okp_ok; exact Ha.
+  - eapply okp_bind; [apply delete_block_NS; eauto|]. intros a Ha; apply okp_ok; exact Ha.
+  - destruct (enumerates order (w_unspent w)); [|intros a Ha; discriminate].
+    eapply okp_bind; [apply create_NS; eauto|]. intros a Ha; apply okp_ok; exact Ha.
+  - destruct (enumerates sorder (w_staking w) && enumerates uorder (w_unspent w)); [|intros a Ha; discriminate].
+    eapply okp_bind; [apply create_staking_NS; eauto|]. intros a Ha; apply okp_ok; exact Ha.
+  - unfold add_to_pending. destruct first_from_pk; [|intros a Ha; discriminate].
+    destruct h; [|intros a Ha; discriminate].
+    destruct (negb (n =? w_pk w) || is_gt); cbn [bind]; [intros a Ha; discriminate|].
+    apply okp_ok. cbn [fst]. apply NS_frame; auto. apply HN.
+  - eapply okp_bind; [|intros a Ha; apply okp_ok; exact Ha].
+    unfold update_from_snapshot. apply fold_res_okp.
+    + intros a s Ha Hin. destruct (Ho s Hin). apply snap_insert_NS; auto.
+    + split; [apply HN|]. intros k x Hx; discriminate.
+  - apply okp_ok. cbn [fst reset]. split; [apply HN|]. intros k x Hx; discriminate.
+Qed.
+
+Theorem no_stale_reachable : forall dbg pk ops w,
+  (forall o, In o ops -> op_ns pk o) -> run dbg (init pk) ops = Ok w -> NoStale w.
+Proof.
+  intros dbg pk ops w Hops Hr. apply (NS_NoStale pk).
+  assert (HN : NS pk (init pk)) by (split; [reflexivity|intros k x Hx; discriminate]).
+  revert Hops Hr HN. generalize (init pk). induction ops as [|o t IH]; intros w0 Hops Hr HN; cbn [run] in Hr.
+  - inversion Hr; subst. exact HN.
+  - destruct (step dbg w0 o) as [[w1 out]| |] eqn:E; cbn [bind] in Hr; try discriminate.
+    apply (IH w1); [intros; apply Hops; cbn; auto|exact Hr|].
+    apply (step_NS dbg pk w0 o HN (Hops o (or_introl eq_refl)) (w1, out) E).
+Qed.
+
 (* ------------------------------------------------------------------ *)
 (** * Witnesses: the four ways the pinned code builds a bad transaction *)
 
@@ -1322,17 +1707,14 @@ Proof.
   split; [vm_compute; reflexivity|]. vm_compute. reflexivity.
 Qed.
 
-Lemma refuted_wrap :
-  exists ops w order keys pays fee latest gp w' t,
-    run false (init 1) ops = Ok w /\ enumerates order (w_unspent w) = true /\
-    create false w order keys pays fee latest gp = Ok (w', Built t) /\
-    sum_amt (bt_from t) < sum_amt (bt_to t).
-Proof.
-  exists [OWind (pay_block 1 1 1000) 5]. eexists.
-  exists [mkK 1 1 0 0 1000 0], [2], [18446744073709551615], 2, 1, 5. do 2 eexists.
-  split; [vm_compute; reflexivity|]. split; [vm_compute; reflexivity|].
-  split; [vm_compute; reflexivity|]. vm_compute. reflexivity.
-Qed.
+(* regression (2da67eb): payments + fee beyond u64 used to wrap in release builds (a
+   transaction paying out ~2^64 from one input) and to panic in debug builds; the
+   request is now refused in both, and the wallet is untouched *)
+Lemma regress_wrap : forall dbg,
+  exists w, run dbg (init 1) [OWind (pay_block 1 1 1000) 5] = Ok w /\
+    create dbg w [mkK 1 1 0 0 1000 0] [2] [18446744073709551615] 2 1 5 = Ok (w, ErrInvalidInput) /\
+    create dbg w [mkK 1 1 0 0 1000 0] [2; 3] [18446744073709551615; 1] 0 1 5 = Ok (w, ErrInvalidInput).
+Proof. intros [|]; eexists; (split; [vm_compute; reflexivity|split; vm_compute; reflexivity]). Qed.
 
 Fixpoint upto (n : nat) : list N :=
   match n with O => [] | S m => upto m ++ [N.of_nat m] end.
@@ -1364,50 +1746,44 @@ Definition wit_spend_block : block :=
 Definition wit_stale_ops : list op :=
   [OWind (pay_block 1 1 1000) 5; OWind wit_spend_block 5; OUnwind wit_spend_block 5].
 
-Lemma refuted_stale :
-  exists ops w order keys pays fee latest gp w' t i,
-    run true (init 1) ops = Ok w /\ enumerates order (w_unspent w) = true /\
-    create true w order keys pays fee latest gp = Ok (w', Built t) /\
-    In i (bt_from t) /\ 0 < s_amt i /\ ~ In (slip_key i) (w_unspent w).
+(* regression (953d536): unwinding used to re-add the spent output under the spending
+   block's id and transaction index; the transaction built afterwards now references
+   the output the wallet lists (and that exists) *)
+Lemma regress_stale :
+  exists w w' t, run true (init 1) wit_stale_ops = Ok w /\ NoStale w /\
+    create true w [mkK 1 1 0 0 1000 0] [2] [400] 0 2 5 = Ok (w', Built t) /\
+    map slip_key (bt_from t) = [mkK 1 1 0 0 1000 0] /\ w_unspent w = [mkK 1 1 0 0 1000 0] /\
+    sum_amt (bt_from t) = 1000 /\ sum_amt (bt_to t) = 1000.
 Proof.
-  exists wit_stale_ops. eexists.
-  exists [mkK 1 1 0 0 1000 0], [2], [400], 0, 2, 5. do 3 eexists.
-  split; [vm_compute; reflexivity|]. split; [vm_compute; reflexivity|].
-  split; [vm_compute; reflexivity|].
-  split; [left; reflexivity|]. split; [vm_compute; reflexivity|].
-  vm_compute. intros [H|[]]. discriminate H.
+  do 3 eexists. split; [vm_compute; reflexivity|]. split.
+  { intros k. unfold stale. cbn [w_slips w_pk].
+    destruct (key_eq_dec k (mkK 1 1 0 0 1000 0)) as [->|Hne]; [vm_compute; reflexivity|].
+    cbn [mget]. apply key_eqb_neq in Hne. rewrite Hne. reflexivity. }
+  repeat split; vm_compute; reflexivity.
 Qed.
 
-(* update_from_balance_snapshot keeps staking_slips and files the staked slip as unspent:
-   the staking transaction built next takes it from both sets *)
+(* regression (bc2e87e): a balance snapshot used to keep staking_slips and to file the
+   staked slip as unspent as well, so that the next staking transaction referenced it
+   twice; now it is in the staking set only and selected once *)
 Definition wit_stake_slip : slip := out_slip 1 645 4 2 1 TY_BLOCKSTAKE.
 Definition wit_snapshot_ops : list op := [OAddSlip 4 2 wit_stake_slip true; OSnapshot [wit_stake_slip]].
 
-Lemma refuted_snapshot_staking :
-  exists ops w sorder uorder amount unlocked lastvalid w' t,
-    ops_u64 ops /\ run true (init 1) ops = Ok w /\
-    enumerates sorder (w_staking w) = true /\ enumerates uorder (w_unspent w) = true /\
-    create_staking true w sorder uorder amount unlocked lastvalid = Ok (w', Some t) /\
-    ~ NoDup (map s_key (bt_from t)).
+Lemma regress_snapshot_staking :
+  exists w w' t, ops_u64 wit_snapshot_ops /\ run true (init 1) wit_snapshot_ops = Ok w /\
+    w_staking w = [mkK 1 4 2 1 645 8] /\ w_unspent w = [] /\ w_balance w = 0 /\
+    create_staking true w [mkK 1 4 2 1 645 8] [] 600 10 0 = Ok (w', Some t) /\
+    map s_key (bt_from t) = [mkK 1 4 2 1 645 8].
 Proof.
-  exists wit_snapshot_ops. eexists.
-  exists [mkK 1 4 2 1 645 8], [mkK 1 4 2 1 645 8], 1000, 10, 0. do 2 eexists.
-  split.
+  do 3 eexists. split.
   { intros o [<-|[<-|[]]]; cbn [op_u64].
     - vm_compute. reflexivity.
     - intros s [<-|[]]. split; vm_compute; reflexivity. }
-  split; [vm_compute; reflexivity|]. split; [vm_compute; reflexivity|].
-  split; [vm_compute; reflexivity|]. split; [vm_compute; reflexivity|].
-  vm_compute. intros H. inversion H as [|x l Hn _]. apply Hn. left. reflexivity.
+  repeat split; vm_compute; reflexivity.
 Qed.
 
 (* the witnesses are inside the respective class *)
 Lemma wit_edge_known : exists w, run true (init 1) wit_edge_ops = Ok w /\
   known_edge w [mkK 1 5 0 0 100 0; mkK 1 1 0 0 1000 0] [500] 0 5 5 = true.
-Proof. eexists. split; vm_compute; reflexivity. Qed.
-
-Lemma wit_stale_known : exists w, run true (init 1) wit_stale_ops = Ok w /\
-  known_stale w [mkK 1 1 0 0 1000 0] [400] 0 2 5 = true.
 Proof. eexists. split; vm_compute; reflexivity. Qed.
 
 (* ---- examples for non-vacuity ---- *)
